@@ -227,6 +227,10 @@ def replay_case(st, case_line, judge):
 
 
 DRIVERS = {
+    'dd_all': {'src': 'drv_dd.cpp', 'flags': []},
+    'dd_o2': {'src': 'drv_dd.cpp', 'flags': ['-O2', '-ffp-contract=off']},
+    'eft_all': {'src': 'drv_eft.cpp', 'flags': []},
+    'eft_o2': {'src': 'drv_eft.cpp', 'flags': ['-O2', '-ffp-contract=off']},
     'convcfg_p0': {'src': 'drv_convcfg.cpp', 'flags': ['-DPART=0']},
     'convcfg_p1': {'src': 'drv_convcfg.cpp', 'flags': ['-DPART=1']},
     'convcfg_p2': {'src': 'drv_convcfg.cpp', 'flags': ['-DPART=2']},
@@ -377,6 +381,33 @@ def blk(name, part, group, q, t, mode='rnd'):
 
 
 PLANS = {
+    'C10': {
+        'level': 'proof', 'coq': 'Properties_C10',
+        'rule': 'normalised dd (qd) operands built by the driver with exact two_sum steps: leading exponents -40..40 (5% up to +-800), exponent gaps 0..110 (220 for qd), '
+                'tails that are zero, exactly half an ulp (ties), or separated by up to 40 extra bits; pair classes: cancelling heads with independent tails, equal, '
+                'negated, power-of-two multiplier. Each result of + - * / sqrt and < == <= is judged in exact rationals: normalised (every component at most half an '
+                'ulp of its predecessor) and |result - exact| <= K 2^-106 |exact| (K = 4 add/sub, 8 mul, 16 div, 32 sqrt; 2^-212 for qd); overflowing / underflowing '
+                'exact results are outside the property. Built twice (-O1, -O2 -ffp-contract=off). non-trivial = all',
+        'assumptions': ['the relative-error bounds for all inputs are NOT a theorem (DESIGN section 6 C10): they are enforced per case by the acceptance predicate'],
+        'streams': [{'name': 'dd_qd_arith', 'driver': 'dd_all', 'what': 'dd and qd arithmetic, -O1',
+                     'runs': {'quick': [dict(args=['--mode', 'rnd', '--count', '600'], shards=16)], 'thorough': [dict(args=['--mode', 'rnd', '--count', '20000'], shards=16)]}},
+                    {'name': 'dd_qd_arith_o2', 'driver': 'dd_o2', 'what': 'dd and qd arithmetic, -O2 -ffp-contract=off',
+                     'runs': {'quick': [dict(args=['--mode', 'rnd', '--count', '300'], shards=16)], 'thorough': [dict(args=['--mode', 'rnd', '--count', '10000'], shards=16)]}}],
+    },
+    'C13': {
+        'level': 'proof', 'coq': 'Properties_C13',
+        'rule': 'doubles with aimed structure (exponent gaps 0..110 between the operands, significands that are zero / all ones / one bit / sparse / random with '
+                'trailing zeros, cancelling and equal pairs, subnormals, values at the split threshold) through two_sum, two_diff, quick_two_sum, two_prod, two_sqr, '
+                'split, three_sum; built twice (-O1 and -O2 -ffp-contract=off); generic twoSum on all pairs of quarter (cfloat<8,2>) and cfloat<8,4> and samples of half '
+                'and bfloat_t. Judged against the specification in exact rationals: first output = RN(exact), outputs sum exactly to the inputs. non-trivial = all',
+        'assumptions': ['inputs above half the largest double and products outside [2^-900, 2^1000] are outside the property and not judged'],
+        'streams': [{'name': 'eft_double', 'driver': 'eft_all', 'what': 'double EFTs, -O1',
+                     'runs': {'quick': [dict(args=['--mode', 'rnd', '--count', '800'], shards=16)], 'thorough': [dict(args=['--mode', 'rnd', '--count', '40000'], shards=16)]}},
+                    {'name': 'eft_double_o2', 'driver': 'eft_o2', 'what': 'double EFTs, -O2 -ffp-contract=off',
+                     'runs': {'quick': [dict(args=['--mode', 'rnd', '--count', '600'], shards=16)], 'thorough': [dict(args=['--mode', 'rnd', '--count', '20000'], shards=16)]}},
+                    {'name': 'eft_cfloat', 'driver': 'eft_all', 'what': 'generic twoSum on cfloat types', 'exhaustive': {'quick': False, 'thorough': False},
+                     'runs': {'quick': [dict(args=['--mode', 'cfloat', '--count', '20000'], shards=4)], 'thorough': [dict(args=['--mode', 'cfloat', '--count', '400000'], shards=4)]}}],
+    },
     'C15': {
         'level': 'proof', 'coq': 'Properties_C15',
         'rule': 'ordered (source, target) pairs: 22 posit->posit pairs (different nbits and es, identity pairs), 13 cfloat->cfloat pairs (different geometry and '
@@ -564,7 +595,9 @@ PLANS = {
                    [exh('cfloat_to_exh%d' % k, 'cfloat_s%d' % k, 'to') for k in range(4)] +
                    [rnd('cfloat_to_rnd%d' % k, 'cfloat_s%d' % k, 'to', 600, 10000, shards=4) for k in (10, 11)] +
                    [exh('fixpnt_to_exh', 'fixpnt_small', 'to'), rnd('fixpnt_to_rnd', 'fixpnt_large', 'to', 500, 8000, shards=16),
-                    exh('integer_to_exh', 'integer_small', 'to'), exh('areal_to_exh', 'areal_all', 'to')],
+                    exh('integer_to_exh', 'integer_small', 'to'), exh('areal_to_exh', 'areal_all', 'to'),
+                    {'name': 'dd_qd_readback', 'driver': 'dd_all', 'what': 'double(dd), double(qd) on normalised operands',
+                     'runs': {'quick': [dict(args=['--mode', 'readback', '--count', '1500'], shards=8)], 'thorough': [dict(args=['--mode', 'readback', '--count', '30000'], shards=8)]}}],
     },
     'C06': {
         'level': 'proof', 'coq': 'Properties_C06',
